@@ -219,7 +219,7 @@ def canon(e, rename, depth=0, rewrite=None, pname=None):
     return k
 
 
-def events(f, rename=lambda s: s, significant=None, rewrite=None, pname=None):
+def events(f, rename=lambda s: s, significant=None, rewrite=None, pname=None, guards=False):
     """ordered list of (kind, text): significant calls in DFS order of the normal CFG, stores to
     memory, and the returned value(s)"""
     out = []
@@ -255,6 +255,9 @@ def events(f, rename=lambda s: s, significant=None, rewrite=None, pname=None):
                 continue
             args = [canon(f.deep_simplify(a), rename, 1, rewrite, pname) for a in f.call_args(b)]
             out.append(("call", "%s(%s)" % (name, ", ".join(args))))
+        elif t["k"] == "switch" and guards and f._switch_const(t, b) is None:
+            n = len(blk["stmts"])
+            out.append(("guard", canon(f.deep_simplify(f.operand_expr(t["discr"], b, n)), rename, 1, rewrite, pname)))
         elif t["k"] == "return":
             out.append(("return", canon(f.deep_simplify(f.return_expr(b)), rename, 1, rewrite, pname)))
         elif t["k"] == "yield":
